@@ -167,9 +167,11 @@ def check_data_consistency(pdf: pd.DataFrame,
     # Check for inconsistencies
     # 1 - A non-detection should not be coincident with a detection
     # 2 - A VV hit should not be coincident with a hit or a non-detection
+    # Note: only the dt and ceilo values matter here. The user index is dropped from these two subsets,
+    # else a user index named like one of the columns would make the merge ambiguous.
     for hit_type in [0, -1]:
-        nodets = data[data['type'] == hit_type][['dt', 'ceilo']]
-        dets = data[data['type'] != hit_type][['dt', 'ceilo']]
+        nodets = data[data['type'] == hit_type][['dt', 'ceilo']].reset_index(drop=True)
+        dets = data[data['type'] != hit_type][['dt', 'ceilo']].reset_index(drop=True)
         merged = dets.merge(nodets, how='inner', on=['dt', 'ceilo'])
         if len(merged) > 0:
             raise AmpycloudError('Inconsistent input data '
